@@ -283,6 +283,10 @@ def execute(sc):
         violation = {"kind": "spurious-exception", "site": inner[-1].filename.split("/acryo/")[-1] + ":" + inner[-1].name,
                      "detail": f"{type(e).__name__}: {str(e)[:300]}", "layout": n_layouts, "layout_style": lay["style"] if lay else None,
                      "multi_chunk": bool(nblocks and max(nblocks[-1]) > 1), "numblocks": nblocks[-1] if nblocks else None}
+    if violation is None and sim.race is not None:
+        r_ = sim.race
+        violation = {"kind": "array-modified-while-task-parked", "site": r_["function"],
+                     "detail": f"array `{r_['variable']}` (shape {r_['shape']}) held by {r_['function']}() changed while that task was parked at {r_['parked_at']}: another task wrote into it"}
     st = sim.stats
     res = {
         "ok": violation is None, "violation": violation,
